@@ -15,9 +15,9 @@ type GRaw struct {
 
 // GOutcome scripts the stub.
 type GOutcome struct {
-	Kind    string `json:"kind"`              // result | error
-	Result  any    `json:"result,omitempty"`  // unary / client-streaming result tree
-	Stream  []any  `json:"stream,omitempty"`  // messages the stub sends (server / bidi streaming)
+	Kind    string `json:"kind"`               // result | error
+	Result  any    `json:"result,omitempty"`   // unary / client-streaming result tree
+	Stream  []any  `json:"stream,omitempty"`   // messages the stub sends (server / bidi streaming)
 	ErrName string `json:"err_name,omitempty"` // declared error name (kind error)
 	ErrMsg  string `json:"err_msg,omitempty"`
 }
@@ -46,11 +46,11 @@ type GCase struct {
 type GTap struct {
 	Kind   string              `json:"kind"` // req_md req resp header trailer status panic
 	MD     map[string][]string `json:"md,omitempty"`
-	Msg    any                 `json:"msg,omitempty"`     // canonical tree of the protobuf message (Go field names, normalised)
+	Msg    any                 `json:"msg,omitempty"`      // canonical tree of the protobuf message (Go field names, normalised)
 	MsgT   string              `json:"msg_type,omitempty"` // Go type of the message
-	Code   string              `json:"code,omitempty"`    // status code name
-	Status string              `json:"status,omitempty"`  // status message
-	Text   string              `json:"text,omitempty"`    // panic value and stack
+	Code   string              `json:"code,omitempty"`     // status code name
+	Status string              `json:"status,omitempty"`   // status message
+	Text   string              `json:"text,omitempty"`     // panic value and stack
 }
 
 // GStubIn is what the service stub observed.
@@ -68,17 +68,17 @@ type GStubIn struct {
 
 // GClientOut is what the caller of the generated client (or of the raw pb client) got back.
 type GClientOut struct {
-	HasRes  bool   `json:"has_result"`
-	Result  any    `json:"result,omitempty"`
-	Err     string `json:"err,omitempty"`      // error text of the call (unary) or of opening the stream
-	ErrType string `json:"err_type,omitempty"` // Go type of the error
-	ErrName string `json:"err_name,omitempty"` // goa error name if the error is a ServiceError
-	Code    string `json:"code,omitempty"`     // gRPC status code of Err when it carries one
-	Recv    []any  `json:"recv,omitempty"`     // streamed results read by the client, in order
-	RecvEnd string `json:"recv_end,omitempty"` // "eof" or the error that ended reading
+	HasRes   bool   `json:"has_result"`
+	Result   any    `json:"result,omitempty"`
+	Err      string `json:"err,omitempty"`      // error text of the call (unary) or of opening the stream
+	ErrType  string `json:"err_type,omitempty"` // Go type of the error
+	ErrName  string `json:"err_name,omitempty"` // goa error name if the error is a ServiceError
+	Code     string `json:"code,omitempty"`     // gRPC status code of Err when it carries one
+	Recv     []any  `json:"recv,omitempty"`     // streamed results read by the client, in order
+	RecvEnd  string `json:"recv_end,omitempty"` // "eof" or the error that ended reading
 	RecvCode string `json:"recv_code,omitempty"`
-	Sent    int    `json:"sent"`               // streamed payloads sent successfully
-	SendErr string `json:"send_err,omitempty"`
+	Sent     int    `json:"sent"` // streamed payloads sent successfully
+	SendErr  string `json:"send_err,omitempty"`
 	CloseErr string `json:"close_err,omitempty"`
 }
 
